@@ -240,9 +240,9 @@ sLUMemInit(fact_t fact, void *work, int_t lwork, int m, int n, int_t annz,
 	} else {
 	    xsup   = (int *)suser_malloc((n+1) * iword, HEAD, Glu);
 	    supno  = (int *)suser_malloc((n+1) * iword, HEAD, Glu);
-	    xlsub  = suser_malloc((n+1) * iword, HEAD, Glu);
-	    xlusup = suser_malloc((n+1) * iword, HEAD, Glu);
-	    xusub  = suser_malloc((n+1) * iword, HEAD, Glu);
+	    xlsub  = suser_malloc((n+1) * sizeof(int_t), HEAD, Glu);
+	    xlusup = suser_malloc((n+1) * sizeof(int_t), HEAD, Glu);
+	    xusub  = suser_malloc((n+1) * sizeof(int_t), HEAD, Glu);
 	}
 
 	if ( Glu->MemModel == USER ) {
